@@ -388,7 +388,7 @@ func TestPropStructured(t *testing.T) {
 	prop.Rapid(t, func(t *rapid.T) Case {
 		c := Case{Asm: GenAsm(t, true), Truncate: -1, FlipOff: -1}
 		file, slots := refbundle.Assemble(&c.Asm)
-		switch rapid.IntRange(0, 11).Draw(t, "kind") {
+		switch rapid.IntRange(0, 13).Draw(t, "kind") {
 		case 0:
 			// honest
 		case 1:
@@ -428,6 +428,42 @@ func TestPropStructured(t *testing.T) {
 			}
 		case 5:
 			c.Append = rapid.IntRange(1, 20).Draw(t, "append")
+		case 6, 7:
+			// "transfer": two fields of one family are edited TOGETHER so that their sum is unchanged
+			// modulo 2^64 (one grows by x, the other shrinks by x; x up to 2^64-1): every running total
+			// a careless reader computes without overflow checks still lands where the honest file has
+			// it, although one field alone now reaches far outside the file.
+			c.Asm.Wide = true
+			if rapid.Bool().Draw(t, "addraw") { // unknown sections to step over
+				n := len(c.Asm.Sections)
+				raws := []refbundle.AsmSection{{Name: "unknown-a", Kind: "raw", RawLen: rapid.IntRange(0, 40).Draw(t, "rawa"), Decoy: -1}, {Name: "unknown-b", Kind: "raw", RawLen: rapid.IntRange(0, 40).Draw(t, "rawb"), Decoy: -1}}
+				at := rapid.IntRange(0, n-1).Draw(t, "rawat")
+				c.Asm.Sections = append(c.Asm.Sections[:at:at], append(raws, c.Asm.Sections[at:]...)...)
+			}
+			_, wslots := refbundle.Assemble(&c.Asm)
+			fam := rapid.SampledFrom([]string{"sl", "sl", "idx", "resp"}).Draw(t, "family")
+			var pool []refbundle.Slot
+			for _, sl := range wslots {
+				n := sl.Name
+				switch {
+				case fam == "sl" && strings.HasPrefix(n, "sl[") && strings.HasSuffix(n, ".len"):
+					pool = append(pool, sl)
+				case fam == "idx" && (strings.Contains(n, ".off[") || strings.Contains(n, ".len[")):
+					pool = append(pool, sl)
+				case fam == "resp" && (strings.HasSuffix(n, ".hdrlen") || strings.HasSuffix(n, ".bodylen")):
+					pool = append(pool, sl)
+				}
+			}
+			if len(pool) >= 2 {
+				i := rapid.IntRange(0, len(pool)-2).Draw(t, "ta")
+				j := rapid.IntRange(i+1, len(pool)-1).Draw(t, "tb")
+				a, b := pool[i], pool[j]
+				if rapid.Bool().Draw(t, "swapab") {
+					a, b = b, a
+				}
+				x := rapid.SampledFrom([]uint64{^uint64(0) - a.Value, 1 << 63, 1 << 32, 1, -a.Value, uint64(len(file)), 1<<63 - a.Value}).Draw(t, "x")
+				c.Patches = []PatchSpec{{Slot: a.Name, Mode: "delta", Value: x}, {Slot: b.Name, Mode: "delta", Value: -x}}
+			}
 		default:
 			np := rapid.SampledFrom([]int{1, 1, 1, 2}).Draw(t, "npatch")
 			for i := 0; i < np; i++ {
